@@ -2,6 +2,7 @@ import Proofs.MetaState
 import Proofs.MetaDelete
 import Gen.LinkDecisions
 import Proofs.RelateShape
+import Proofs.RelateShapeMore
 import Proofs.MetaShapes
 
 /-!
@@ -341,6 +342,27 @@ def swappedRelate : PairProg :=
                { call := { link := .sourceLink, op := .connect, a1 := .inst1, a2 := .inst2 }, undo := [], raises := .relateExc } ] }
 example : ((iPair linkDefs findBody findElse deleteBody swappedRelate sch11 (run sch11 (hist ++ [.new 0 true])) 3 1 "R1" "").1.links 0).tgt 3 = [1] ∧
     ((relate sch11 (run sch11 (hist ++ [.new 0 true])) 3 1 "R1" "").1.links 0).tgt 3 = [] := by
+  decide
+
+/-- WHOLE HISTORIES — the objects every invariant of C02 is stated about (`run sch ops`, `all_invariants_reachable`):
+    for every schema and every list of operations, one step of the model is one step of the interpreter of the
+    generated IR (`new` through the phases, `relate` / `unrelate` through `_find_link` + guards + guarded calls,
+    `delete` through its body calling the interpreted `unrelate`), and the state a history reaches is the state the
+    interpreter reaches — the state of an operation that raised is handed on as it was left -/
+theorem run_as_in_source (sch : Schema) (s : State) (op : Op) (ops : List Op) :
+    step sch s op = iStep linkDefs findBody findElse deleteBody relateProg unrelateProg newPhases sch s op ∧
+    run sch ops = iRun linkDefs findBody findElse deleteBody relateProg unrelateProg newPhases sch ops :=
+  ⟨step_eq sch s op, run_eq sch ops⟩
+
+/-! non-vacuity: the interpreted history builds the link, rejects the relate after the delete and leaves nothing
+    linked; with the swapped program above the same history ends in another state -/
+example : ((iRun linkDefs findBody findElse deleteBody relateProg unrelateProg newPhases sch11 hist).links 0).tgt 0 = [1] ∧
+    ((iRun linkDefs findBody findElse deleteBody relateProg unrelateProg newPhases sch11
+        (hist ++ [.delete 0, .relate 0 1 "R1" ""])).links 0).src 1 = [] ∧
+    ((iRun linkDefs findBody findElse deleteBody relateProg unrelateProg newPhases sch11
+        (hist ++ [.new 0 true, .relate 3 1 "R1" ""])).links 0).tgt 3 = [] ∧
+    ((iRun linkDefs findBody findElse deleteBody swappedRelate unrelateProg newPhases sch11
+        (hist ++ [.new 0 true, .relate 3 1 "R1" ""])).links 0).tgt 3 = [1] := by
   decide
 
 end PyxProps.C02
